@@ -18,6 +18,45 @@ def _strlist(e):
     return None
 
 
+def passthrough_clause(model, rep, funcs):
+    """Rows and options pass through unchanged: the readers never re-bind (filter) the data frame they are given, the writers forward the caller's
+    options as they are."""
+    for r in ("from_dataframe",):
+        f = funcs.get(MC + r)
+        if f is None:
+            continue
+        rep.instance("S10", f.loc())
+        reb = [st for st in walk_no_nested(f.node) if isinstance(st, (ast.Assign, ast.AugAssign, ast.AnnAssign)) and
+               any(isinstance(t, ast.Name) and t.id == "df" for t in (st.targets if isinstance(st, ast.Assign) else [st.target]))]
+        rep.ob("S10", f.anchor, "from_dataframe uses the frame it is given as it is (no row is dropped, reordered or de-duplicated before the columns are read)",
+               not reb, f"`{norm_src(reb[0])}` replaces the frame before it is read: rows disappear on reload" if reb else "", node=(reb[0] if reb else f.node), fn=f,
+               clause="layout", stmt="from_dataframe frame untouched")
+    for w, callee in (("to_csv", "write_csv"), ("to_parquet", "write_parquet")):
+        try:
+            f = funcs.get(MC + w) or model.func(MC + w)
+        except Exception:
+            continue
+        calls = [c for c in calls_in(f) if isinstance(c.func, ast.Attribute) and c.func.attr == callee]
+        rep.instance("S10", f.loc())
+        ok = len(calls) == 1
+        det = f"{len(calls)} {callee} call(s)"
+        if ok:
+            c = calls[0]
+            params = set(f.param_names())
+            for k in c.keywords:
+                if k.arg in params and not (isinstance(k.value, ast.Name) and k.value.id == k.arg):
+                    ok = False
+                    det = f"`{k.arg}={norm_src(k.value)}`: the caller's `{k.arg}` is altered on the way to {callee} (None / 0 no longer mean what the caller asked for)"
+            recv = norm_src(c.func.value)
+            if recv not in ("self.to_dataframe()", "df") and not recv.startswith("self.to_dataframe()"):
+                pass
+            if w == "to_parquet" and "shrink" in norm_src(f.node):
+                ok = False
+                det = "column dtypes are narrowed before writing: values do not reload bit-for-bit"
+        rep.ob("S10", f.anchor, f"{w} writes the table of to_dataframe() with the caller's options forwarded unchanged", ok, det if not ok else "", node=f.node, fn=f,
+               clause="layout", stmt=f"def {w} passthrough")
+
+
 def check(model, rep, tier):
     rep.decided += ["C13 column layout: _CSV_COLUMNS == keys/indices written by to_dataframe == default pos_cols + rot_cols of every reader; features after them; "
                     "to_file/from_file dispatch on the same suffix set; readers funnel into from_dataframe, writers into to_dataframe; only the rot-vec is cast to float32"]
@@ -126,3 +165,4 @@ def check(model, rep, tier):
         rep.ob("S10", ff.anchor, "each suffix is read by the reader of the format it was written in", okw and okr, f"writer ok {okw}, reader ok {okr}", node=ff.node,
                fn=ff, clause="layout", stmt="suffix dispatch targets")
     rep.floor("S10", 10, "(I/O table sites)")
+    passthrough_clause(model, rep, funcs)
